@@ -87,6 +87,28 @@ def source():
     if why is None:
         return s, "vendor/c_common.c.gz"
     reasons.append("vendored: " + why)
+    # the pristine Cython output plus the hand-applied edits that mirror the two 'fix:' commits touching c_common.pyx
+    # (vendor/c_common.fix.patch, see DESIGN.md section 7); used only if the result is in sync with the current .pyx
+    fix = os.path.join(core.VERIF, "vendor", "c_common.fix.patch")
+    if os.path.exists(fix):
+        tmp = tempfile.mkdtemp(prefix="pmv-cpatch-")
+        try:
+            src = os.path.join(tmp, "a.c")
+            with open(src, "w", encoding="utf-8") as f:
+                f.write(s)
+            out = os.path.join(tmp, "b.c")
+            r = subprocess.run(["patch", "-s", "-o", out, src, fix], capture_output=True, text=True, timeout=120)
+            if r.returncode == 0 and os.path.exists(out):
+                s2 = open(out, encoding="utf-8", errors="replace").read()
+                why = in_sync(s2)
+                if why is None:
+                    return s2, "vendor/c_common.c.gz + vendor/c_common.fix.patch (hand-applied mirror of the pyx fix commits)"
+                reasons.append("vendored+fix.patch: " + why)
+            else:
+                reasons.append("fix.patch does not apply: " + (r.stderr or r.stdout)[-200:])
+        finally:
+            import shutil
+            shutil.rmtree(tmp, ignore_errors=True)
     return None, "; ".join(reasons)
 
 
